@@ -24,6 +24,7 @@ type Mix struct {
 	Send, Dep, Recv, Replay, Replace, RepDep, Admin, Ledger, Multi int
 	DepValid, RecvBroken, ReplaceValid, AdminHolder, FaultPct   int
 	Rollback                                                    int // percent of steps that start a rollback probe
+	AttProbe                                                    int // percent of steps that start an attester-change probe
 	Restart                                                     int // percent of steps that are a genesis round trip
 	AdminTypes                                                  []string
 }
@@ -331,6 +332,13 @@ func (m Mix) next(g *sim.G) *sim.Op {
 		queueOps(g, ops[1:]...)
 		return ops[0]
 	}
+	if m.AttProbe > 0 && g.Pct("attprobe", m.AttProbe) {
+		// the attester manager enables or disables an entry (under whatever spelling it has), then
+		// submissions attested by the set as that change leaves it
+		a := g.AdminOp("ap", 100, []string{"EnableAttester", "DisableAttester"})
+		queueOps(g, followUps(g, "ap/use", a.SdkMsgs()[0])...)
+		return a
+	}
 	if m.Rollback > 0 && m.Recv > 0 && g.Pct("doublereceive", 2) {
 		if ops := doubleReceiveProbe(g, "dr"); ops != nil {
 			queueOps(g, ops[1:]...)
@@ -552,7 +560,7 @@ var C02 = register(&HistProp{ID: "C02",
 		return sim.DrawGenesis(t, sim.GenOpts{UsedInGen: true, NoPause: true, Decoys: true, ManyUsed: true})
 	},
 	Next: func(g *sim.G, i int) *sim.Op {
-		return Mix{Recv: 8, Replay: 7, Admin: 3, Send: 1, Multi: 1, RecvBroken: 35, AdminHolder: 85, Restart: 3, Rollback: 4,
+		return Mix{Recv: 8, Replay: 7, Admin: 3, Send: 1, Multi: 1, RecvBroken: 35, AdminHolder: 85, Restart: 3, Rollback: 4, AttProbe: 3,
 			AdminTypes: []string{"PauseBurningAndMinting", "UnpauseBurningAndMinting", "PauseSendingAndReceivingMessages", "UnpauseSendingAndReceivingMessages",
 				"EnableAttester", "DisableAttester", "UpdateSignatureThreshold", "LinkTokenPair", "UnlinkTokenPair", "AddRemoteTokenMessenger", "RemoveRemoteTokenMessenger"}}.next(g)
 	},
@@ -747,7 +755,7 @@ var C03 = register(&HistProp{ID: "C03",
 				return ops[0]
 			}
 		}
-		return Mix{Recv: 14, Replay: 4, Admin: 4, Ledger: 2, RecvBroken: 65, AdminHolder: 90, FaultPct: 5, Rollback: 4, AdminTypes: recvAdmin}.next(g)
+		return Mix{Recv: 14, Replay: 4, Admin: 4, Ledger: 2, RecvBroken: 65, AdminHolder: 90, FaultPct: 5, Rollback: 4, AttProbe: 3, AdminTypes: recvAdmin}.next(g)
 	},
 	MinOps: 3, MaxOps: 25,
 	New: func() Checker {
